@@ -27,7 +27,7 @@ EXPLANATION = (
     "port mixes and schedules."
 )
 ASSUMPTIONS = ["CPython ast parses /repo's source as the interpreter would"]
-MIN_INSTANCES = {"R-11a": 4, "R-11b": 6, "R-11c": 6, "R-11d": 4}
+MIN_INSTANCES = {"R-11f": 2, "R-11a": 4, "R-11b": 6, "R-11c": 6, "R-11d": 4}
 
 
 def r11a(model, ctx):
@@ -88,6 +88,12 @@ def r11b(model, ctx):
     ok = any(t.skeleton() == "slots[{0}].write({1}, {2}, {3})" and [h.src for h in t.holes] == ["memory_index", "addr", "data", "en"] for t in tm)
     ctx.check(ok, R, "memory:write-loop:write", "slots[m].write(addr, data, en)", "the generated write must be "
               "slots[memory].write(addr, data, en) with the port's own values", f"{PYRTL}:{w.lineno}")
+    # the generated write is unconditional (or guarded by the write enable only): a word is stored whatever its value
+    guards = [t for t in tm if t.skeleton().startswith("if ")]
+    gok = all(t.skeleton() == "if {0}:" and [h.src for h in t.holes] == ["en"] for t in guards)
+    ctx.check(gok, R, "memory:write-loop:unconditional", "the write is performed on every edge (the enable is its mask)",
+              f"the generated write-port code is guarded by `{[t.skeleton().format(*[h.src for h in t.holes]) for t in guards]}`: "
+              f"the write must be performed for every value of address and data — only the enable may gate it", f"{PYRTL}:{w.lineno}")
     # read loop: structure of emitted code, in order
     g = CFG(ast.FunctionDef(name="r", args=fn.args, body=r.body, decorator_list=[], lineno=r.lineno, col_offset=0), inline_closures=False)
     def tnode(skel):
@@ -197,6 +203,33 @@ def r11e(model, ctx):
     pass
 
 
+def r11f(model, ctx):
+    """write() stores an unmasked value as it is (R-11a pins that: without a mask only signed rows are folded); every caller
+    in the simulator therefore passes the mask of the bits it writes — a whole-row write of an unbounded Python integer would
+    otherwise leave a row outside the memory's shape"""
+    R = "R-11f"
+    import re
+    n = 0
+    for rel in (PYEVAL, PYRTL, PYSIM):
+        tree = model.mod(rel).tree
+        for c in ast.walk(tree):
+            if isinstance(c, ast.Call) and isinstance(c.func, ast.Attribute) and c.func.attr == "write" and \
+                    "slots[" in unparse(c.func.value):
+                n += 1
+                has_mask = len(c.args) >= 3 or any(k.arg == "mask" for k in c.keywords)
+                ctx.check(has_mask, R, f"{rel.split('/')[-1]}:slot.write@{unparse(c.args[0]) if c.args else '?'}", "passes the write mask",
+                          f"`{unparse(c)}` writes a memory row without a mask: _PyMemoryState.write stores such a value without "
+                          f"reducing it to the row's width, so a value wider than the row corrupts the memory", f"{rel}:{c.lineno}")
+            if isinstance(c, ast.JoinedStr):
+                tpl = "".join(v.value if isinstance(v, ast.Constant) else "\x00" for v in c.values)
+                for m in re.finditer(r"slots\[\x00\]\.write\(([^)]*)\)", tpl):
+                    n += 1
+                    nargs = len([a for a in m.group(1).split(",") if a.strip()])
+                    ctx.check(nargs >= 3, R, f"{rel.split('/')[-1]}:emitted slot.write/{nargs}", "passes the write mask",
+                              "the generated code writes a memory row without a mask (the write-enable pattern)", f"{rel}:{c.lineno}")
+    need(n >= 2, "callers of the memory slot's write() were not found in _pyeval / _pyrtl")
+
+
 def _only(rule_fn, keep):
     def wrapped(model, ctx):
         n0, v0 = len(ctx.obligations), len(ctx.violations)
@@ -206,11 +239,13 @@ def _only(rule_fn, keep):
     return wrapped
 
 
-RULES = [("R-11a", r11a), ("R-11b", r11b), ("R-11c", r11c), ("R-11d", r11d),
+RULES = [("R-11f", r11f), ("R-11a", r11a), ("R-11b", r11b), ("R-11c", r11c), ("R-11d", r11d),
          ("R-02g", _only(c02.r02g, lambda c: c.startswith("_PyMemoryState"))),
          ("R-05d", _only(c05.r05d, lambda c: "_Row" in c)),
          ("R-04d", _only(c04.r04d, lambda c: any(k in c for k in ("write-enable", "write_port", "read_port", "TRANSPARENCY", "write-port-ids", "write_ports")))),
          ("R-08a", _only(c08.r08a, lambda c: c.startswith("_PyMemoryState"))),
          # a disabled synchronous read port holds its output, also while the domain is in reset
          ("R-03b", _only(c03.r03b, lambda c: c == "_FragmentCompiler:reset-block:registers-only")),
-         ("R-03a", _only(c03.r03a, lambda c: c.endswith(":registers-only")))]
+         ("R-03a", _only(c03.r03a, lambda c: c.endswith(":registers-only"))),
+         # an asynchronous read port follows the memory continuously: its process is woken by every committed write
+         ("R-08g", _only(c08.r08g, lambda c: c.startswith("memory_waker") or c == "_run_wakers"))]
